@@ -583,7 +583,7 @@ func checkBackoff(c BackoffCase) pbt.Verdict {
 func TestC02RealBackoff(t *testing.T) {
 	pbt.Run(t, pbt.Spec[BackoffCase]{Prop: "C02", Test: "TestC02RealBackoff", Engine: "osproc",
 		Gen: func(t *rapid.T) BackoffCase {
-			return BackoffCase{Backoff: pbt.Pick(t, []int{0, 1, 2}), Restarts: pbt.Range(t, 1, 2)}
+			return BackoffCase{Backoff: pbt.Pick(t, []int{0, 1, 2, -2}), Restarts: pbt.Range(t, 1, 2)}
 		},
 		Check: checkBackoff})
 }
